@@ -153,7 +153,7 @@ Proof. induction dims as [|d r IH]; [reflexivity|]. cbn [map concat length]. rew
 Definition variant_dims_dec (mask : Z) : dec (Z * list Z) :=
   if bit mask 6 then
     dl <- read_i 4 ;;
-    if dl <? 0 then fail EOther
+    if (dl <? 0) || (max_variant_array_dimensions <? dl) then fail EOther
     else r <- remaining ;;
          if r / 4 <? dl then fail EEOF
          else tick (Z.to_N (4 * dl)) ;;;
@@ -165,7 +165,7 @@ Proof. intros a b H. inversion H. reflexivity. Qed.
 
 Lemma decodes_variant_dims : forall m dl dims rest bs,
   bit m 7 = true -> enc_dims m dl dims = EOk bs ->
-  dl = zlen dims -> dl <= max_int32 -> (bit m 6 = false -> dims = []) ->
+  dl = zlen dims -> dl <= max_variant_array_dimensions -> (bit m 6 = false -> dims = []) ->
   Forall (fun d => 1 <= d <= max_int32) dims ->
   decodes (variant_dims_dec m) (bs ++ rest) (dl, dims) rest.
 Proof.
@@ -173,8 +173,10 @@ Proof.
   destruct (bit m 6) eqn:B6.
   - replace (zlen dims <? dl) with false in E by (symmetry; apply Z.ltb_ge; lia).
     apply EOk_inj in E. subst bs. subst dl. unfold zlen in *. rewrite Nat2Z.id, firstn_all. rewrite <- app_assoc.
-    eapply decodes_bind; [apply decodes_read_i; [lia|rewrite pow8_4; unfold max_int32 in Hmax; lia]|].
-    replace (Z.of_nat (length dims) <? 0) with false by (symmetry; apply Z.ltb_ge; lia).
+    unfold max_variant_array_dimensions in *.
+    eapply decodes_bind; [apply decodes_read_i; [lia|rewrite pow8_4; lia]|].
+    replace ((Z.of_nat (length dims) <? 0) || (32 <? Z.of_nat (length dims))) with false
+      by (symmetry; apply orb_false_iff; split; apply Z.ltb_ge; lia).
     eapply decodes_bind; [apply decodes_remaining|].
     replace (blen (concat (map (le 4) dims) ++ rest) / 4 <? Z.of_nat (length dims)) with false.
     2:{ symmetry. apply Z.ltb_ge. unfold blen. rewrite app_length, concat_le4_length.
@@ -185,7 +187,7 @@ Proof.
 Qed.
 
 Lemma hdr_array_facts : forall m alen dl dims p, bit m 7 = true -> variant_hdr_ok m alen dl dims p = true ->
-  m mod 64 <= 25 /\ -1 <= alen <= max_variant_array_length /\ dl = zlen dims /\ dl <= max_int32 /\
+  m mod 64 <= 25 /\ -1 <= alen <= max_variant_array_length /\ dl = zlen dims /\ dl <= max_variant_array_dimensions /\
   forallb dim_ok dims = true /\ (bit m 6 = false -> dims = []) /\
   (0 < dl -> dims_product dims 1 = Some alen) /\
   ((dl < 2 /\ alen = -1 /\ p = VSlice None) \/
@@ -196,13 +198,13 @@ Proof.
   apply andb_true in H. destruct H as [Htid H]. apply andb_true in H. destruct H as [H Hshape].
   apply andb_true in H. destruct H as [H Hdims]. apply andb_true in H. destruct H as [Hlo Hhi].
   apply Z.leb_le in Htid, Hlo, Hhi.
-  assert (HD : dl = zlen dims /\ dl <= max_int32 /\ forallb dim_ok dims = true /\ (bit m 6 = false -> dims = []) /\
+  assert (HD : dl = zlen dims /\ dl <= max_variant_array_dimensions /\ forallb dim_ok dims = true /\ (bit m 6 = false -> dims = []) /\
                (0 < dl -> dims_product dims 1 = Some alen)).
   { destruct (bit m 6).
     - split_and. apply Z.eqb_eq in H. apply Z.leb_le in H2. repeat split; try assumption; try discriminate.
       intros Hpos. replace (0 <? dl) with true in H0 by (symmetry; apply Z.ltb_lt; exact Hpos).
       destruct (dims_product dims 1) as [c|]; [|discriminate]. apply Z.eqb_eq in H0. subst c. reflexivity.
-    - split_and. nones. cbn. repeat split; try reflexivity; unfold max_int32; lia. }
+    - split_and. nones. cbn. repeat split; try reflexivity; unfold max_variant_array_dimensions; lia. }
   destruct HD as [H1 [H2 [H3 [H4 H5]]]]. repeat (split; [assumption || lia|]).
   destruct (dl <? 2) eqn:E2.
   - apply Z.ltb_lt in E2. destruct (alen =? -1) eqn:Ea.
@@ -230,8 +232,8 @@ Section Variant.
   Variable k : nat.
 
   Lemma RTb_leaf : forall tid x, rwf reg (variant_ty tid) x = true ->
-    RTb 0 k (encode reg (variant_ty tid) x) (rec (variant_ty tid)) (rnorm reg (variant_ty tid) x) ->
-    RTb 0 k (encode reg (variant_ty tid) x) (dec_builtin rec tid) (norm_leaf reg tid x).
+    RTb 1 k (encode reg (variant_ty tid) x) (rec (variant_ty tid)) (rnorm reg (variant_ty tid) x) ->
+    RTb 1 k (encode reg (variant_ty tid) x) (dec_builtin rec tid) (norm_leaf reg tid x).
   Proof.
     intros tid x Hw Hr. unfold dec_builtin, norm_leaf. destruct (tid =? 15) eqn:E; [|exact Hr].
     apply Z.eqb_eq in E. subst tid. cbn [variant_ty] in *. destruct x; try discriminate.
@@ -245,7 +247,7 @@ Section Variant.
   Lemma RTb_variant : forall m alen dl dims value,
     rwf reg (TCustom CVariant) (VVariant m alen dl dims value) = true ->
     (forall p x, value = Some p -> In x (leaves p) -> rwf reg (variant_ty (m mod 64)) x = true ->
-       RTb 0 k (encode reg (variant_ty (m mod 64)) x) (rec (variant_ty (m mod 64))) (rnorm reg (variant_ty (m mod 64)) x)) ->
+       RTb 1 k (encode reg (variant_ty (m mod 64)) x) (rec (variant_ty (m mod 64))) (rnorm reg (variant_ty (m mod 64)) x)) ->
     RTb 1 (S k) (encode reg (TCustom CVariant) (VVariant m alen dl dims value)) (dec_variant rec)
         (rnorm reg (TCustom CVariant) (VVariant m alen dl dims value)).
   Proof.
@@ -260,7 +262,7 @@ Section Variant.
       destruct (payload_walkers reg (m mod 64) p) as [Eenc Ewf]. rewrite Ewf in Hpl. rewrite Eenc.
       rewrite forallb_forall in Hpl.
       assert (Hleaf : forall x, In x (leaves p) ->
-                RTb 0 k (encode reg (variant_ty (m mod 64)) x) (dec_builtin rec (m mod 64)) (norm_leaf reg (m mod 64) x)).
+                RTb 1 k (encode reg (variant_ty (m mod 64)) x) (dec_builtin rec (m mod 64)) (norm_leaf reg (m mod 64) x)).
       { intros x Hin. apply RTb_leaf; [apply Hpl; exact Hin|]. apply (Hrec p x eq_refl Hin). apply Hpl. exact Hin. }
       destruct (bit m 7) eqn:B7.
       + (* arrays *)
@@ -271,7 +273,7 @@ Section Variant.
                             (fun _ => bind (dec_n (dec_builtin rec tid) (Z.to_nat alen)) (fun l => ret (Some l)))).
         assert (Hchk : ((0 <? dl) && negb (match dims_product dims 1 with Some c => c =? alen | None => false end)) = false).
         { destruct (0 <? dl) eqn:Ep; [|reflexivity]. apply Z.ltb_lt in Ep. rewrite (Hprod Ep), Z.eqb_refl. reflexivity. }
-        assert (Hvals : exists vals, RTb 0 k (enc_list (encode reg (variant_ty tid)) (leaves p)) VALS vals /\
+        assert (Hvals : exists vals, RTb (Z.to_nat alen) k (enc_list (encode reg (variant_ty tid)) (leaves p)) VALS vals /\
                   forall rest, decodes (variant_tail m alen vals (dl, dims)) rest
                                        (VVariant m alen dl dims (Some (norm_payload reg tid p))) rest).
         { destruct Hcases as [[Hd2 [Ha Hp]]|[[Hd2 [Ha [l [Hp [Hlen Hns]]]]]|[Hd2 Hshape]]].
@@ -281,7 +283,7 @@ Section Variant.
           - subst p. rewrite leaves_flat in * by exact Hns. exists (Some (map (norm_leaf reg tid) l)). split.
             + unfold VALS. replace (alen =? -1) with false by (symmetry; apply Z.eqb_neq; lia).
               apply RTb_tick. apply (RTb_fmap _ _ _ _ _ _ (@Some (list val))). rewrite <- Hlen.
-              eapply RTb_weaken; [apply RTb_list with (m := 0%nat)|lia|apply le_n].
+              eapply RTb_weaken; [apply RTb_list with (m := 1%nat)|lia|apply le_n].
               apply Forall_forall. exact Hleaf.
             + intros rest. unfold variant_tail. rewrite Hchk.
               replace (dl <? 2) with true by (symmetry; apply Z.ltb_lt; exact Hd2).
@@ -298,7 +300,7 @@ Section Variant.
             + unfold VALS. replace (alen =? -1) with false by (symmetry; apply Z.eqb_neq; lia).
               apply RTb_tick. apply (RTb_fmap _ _ _ _ _ _ (@Some (list val))).
               replace (Z.to_nat alen) with (length (leaves p)) by lia.
-              eapply RTb_weaken; [apply RTb_list with (m := 0%nat)|lia|apply le_n].
+              eapply RTb_weaken; [apply RTb_list with (m := 1%nat)|lia|apply le_n].
               apply Forall_forall. exact Hleaf.
             + intros rest. unfold variant_tail. rewrite Hchk.
               replace (dl <? 2) with false by (symmetry; apply Z.ltb_ge; exact Hd2).
@@ -320,6 +322,7 @@ Section Variant.
                         cbv beta;
                         replace (max_variant_array_length <? alen) with false by (symmetry; apply Z.ltb_ge; lia);
                         replace (alen <? -1) with false by (symmetry; apply Z.ltb_ge; lia);
+                        eapply (RTb_guard_remaining _ (Z.to_nat alen + 0)); [|lia];
                         eapply RTb_bind; [exact Hvals|];
                         eapply RTb_prim; [reflexivity|apply Nat.le_0_l|]; intros rest;
                         eapply decodes_bind; [apply (decodes_variant_dims m dl dims rest dbs B7 Edbs Hdl Hdlmax Hnil HFd)|];
